@@ -59,7 +59,10 @@ def doProx (aux : Bool) (l : Line) : Option String := do
         (fun (arrs : Array (Array Float)) _ =>
           tabulate (aliasedCalls (fun _ _ _ => nanF) P 1 (ofTab arrs))) (tabulate m)
       { mem := ofTab final, next := 10 }
-    else run (fun _ _ => nanF) P 0 (if alias then 0 else 1) m
+    else match l.nat? "self" with
+      -- `self=d`: x = out = the closed-over data object in buffer d (stratum self-alias)
+      | some d => run (fun _ _ => nanF) P d d m
+      | none => run (fun _ _ => nanF) P 0 (if alias then 0 else 1) m
   let dump (b : Nat) := showList showBits ((List.range (n * mc)).map (st.mem b))
   some s!"ok b0={dump 0} b1={dump 1} b2={dump 2} b3={dump 3} b4={dump 4} b5={dump 5}"
 
